@@ -1,4 +1,5 @@
 import Cirbo.Proofs.Mutate
+import Cirbo.Proofs.RemoveGate
 /-!
 # C02 — Circuits stay well formed under every history of public mutations
 
@@ -6,7 +7,9 @@ import Cirbo.Proofs.Mutate
 -- OBLIGATION: c02_history_invariant
 -- OBLIGATION: c02_history_from_empty
 -- OBLIGATION: c02_topological_iteration_after_history
--- PARTIAL: the invariant theorem covers add_gate/emplace_gate, add_inputs, mark_as_output, set_outputs, set_inputs, order_inputs, order_outputs, replace_inputs, make_block, delete_block (and into_bench's netlist part in C14). remove_gate, rename_gate, remove_block, make_block_from_slice, connect_circuit (+ five wrappers, both directions), replace_subcircuit, into_bench's users-index edits and copy are modelled one-to-one (Model/Mutate.lean, Mutate2.lean) and compared field by field with the code after every call of random histories, and every state the code produces goes through the Lean checker checkWFU, but their invariant lemmas are not proved yet. "A copy shares no mutable state" is correspondence-only (Lean values cannot alias).
+-- OBLIGATION: c02_remove_gate_invariant
+-- OBLIGATION: c02_history_with_removals
+-- PARTIAL: the invariant theorem covers add_gate/emplace_gate, add_inputs, mark_as_output, set_outputs, set_inputs, order_inputs, order_outputs, replace_inputs, make_block, delete_block, remove_gate (and into_bench's netlist part in C14). rename_gate, remove_block, make_block_from_slice, connect_circuit (+ five wrappers, both directions), replace_subcircuit, into_bench's users-index edits and copy are modelled one-to-one (Model/Mutate.lean, Mutate2.lean) and compared field by field with the code after every call of random histories, and every state the code produces goes through the Lean checker checkWFU, but their invariant lemmas are not proved yet. "A copy shares no mutable state" is correspondence-only (Lean values cannot alias).
 -/
 namespace Cirbo
 
@@ -35,6 +38,15 @@ theorem c02_topological_iteration_after_history (ops : List MOp) {c c' : Circuit
   have hw' := (runOps_wfs ops hw hv h).toWFG
   exact ⟨topSort_inv_spec hw', topSort_dir_spec hw'⟩
 
+/-- `remove_gate` (of a gate without users) keeps every clause, incl. the users index and the blocks
+(blocks listing the gate as member, input or output are dropped) -/
+theorem c02_remove_gate_invariant {c c' : Circuit} {l : Label} (hw : WFS c) (h : c.removeGate l = .ok c') : WFS c' :=
+  removeGate_wfs hw h
+
+/-- histories that mix the calls above with gate removals -/
+theorem c02_history_with_removals (ops : List HOp) {c c' : Circuit} (hw : WFS c)
+    (hv : ∀ op ∈ ops, op.valid) (h : runHOps c ops = .ok c') : WFS c' := runHOps_wfs ops hw hv h
+
 /-! Non-vacuity: a concrete history from the empty circuit -/
 open GateType in
 example : ∃ c', runOps Circuit.empty
@@ -46,5 +58,7 @@ example : ∃ c', runOps Circuit.empty
 #print axioms c02_history_invariant
 #print axioms c02_history_from_empty
 #print axioms c02_topological_iteration_after_history
+#print axioms c02_remove_gate_invariant
+#print axioms c02_history_with_removals
 
 end Cirbo
